@@ -66,6 +66,12 @@ RUN_RULE = ('closed-loop simulated traces through the real Strategy::run (Tracer
             'the recorded interaction trace is replayed through the extracted model; non-trivial = at least one published round with a completed probe; distinct = distinct recorded trace')
 
 
+TSOPS_RULE = (' || operation sequences on the real TracerState through the TracerStateHandle hook: 3..150 (thorough ..700) rounds per history with initial sequences at the wrap boundaries '
+              '{0, 1, 33434, 63999, 64000, 64257, 64258, 64400, 64510, 64511}, both maximum-sequence regimes (general, Dublin/IPv6), round sizes 1..254, TCP re-issue bursts up to the 512 capacity, transient failures, '
+              'and responses naming sent, duplicate, stale-slot, previous-round, window-edge (510..513) and random sequences; state dumped after every round and compared with the model; '
+              'oracle: consecutive sequences, < 65535, <= 512 per round, move-or-restart between rounds, Dublin/IPv6 payload fits, and any response naming a sequence not sent in this round leaves the state unchanged')
+
+
 def strat_prop(tag, extra_modes=()):
     return dict(crates=['hcore'], modes=[('hcore', 'run')] + [('hcore', m) for m in extra_modes],
                 nontrivial=run_nontrivial, rule=RUN_RULE, compare=compare_run, oracle_tag=tag,
@@ -120,10 +126,12 @@ def compare_any(inp, impl_out, model_out):
         return compare_run(inp, impl_out, model_out)
     if inp.startswith('state '):
         return compare_state(inp, impl_out, model_out)
-    return compare_exact(inp, impl_out, model_out)
+    return norm_fault(impl_out) == norm_fault(model_out)
 
 
 def any_nontrivial(inp, outp):
+    if inp.startswith('tsops '):
+        return ';' in outp and 'C:' in outp
     return run_nontrivial(inp, outp) if inp.startswith('run ') else state_nontrivial(inp, outp)
 
 
@@ -166,9 +174,9 @@ PROPS = {
                 explanation='PARTIAL: the theorem covers every schedule of the lock-discipline model; its tie to the code is schedule exploration (testing) and parking_lot::RwLock is assumed correct. '
                             'A timeout can only make the harness miss a defect (a slow reader looks blocked), never invent one.'),
     'C01': strat_prop('C01'),
-    'C03': strat_prop('C03'),
+    'C03': dict(strat_prop('C03', ['tsops']), compare=compare_any, nontrivial=any_nontrivial, rule=RUN_RULE + TSOPS_RULE),
     'C06': strat_prop('C06'),
-    'C07': strat_prop('C07'),
+    'C07': dict(strat_prop('C07', ['tsops']), compare=compare_any, nontrivial=any_nontrivial, rule=RUN_RULE + TSOPS_RULE),
     'C08': strat_prop('C08'),
     'C09': strat_prop('C09'),
     'C13': dict(
